@@ -41,9 +41,6 @@ Definition w_gdoc (d : vdoc) (so ro : list str) : gdoc :=
 (* the side condition of the structural theorem: no negative time (a negative duration is formatted by the writer
    with truncated quotients, field by field, which is not a timestamp of any spelling; see the example at the end) *)
 Definition times_nonneg (d : vdoc) : Prop := Forall (fun it => (0 <= vi_st it)%Z /\ (0 <= vi_en it)%Z) (vd_items d).
-(* the side condition the reading half adds to repr_vdoc: no cue refers to a region whose identifier is empty
-   (the reading half's setting_ok demands non-empty setting values) *)
-Definition region_refs_nonempty (d : vdoc) : Prop := Forall (fun it => eff_region it <> Some []) (vd_items d).
 
 Lemma w_cues_length d : length (w_cues d) = length (vd_items d).
 Proof. unfold w_cues. generalize 0%nat. induction (vd_items d) as [|it r IH]; intros k; [reflexivity|]. cbn [w_cues_from length]. rewrite IH. reflexivity. Qed.
@@ -177,18 +174,18 @@ Qed.
 Lemma w_opt_ok regs k e : k <> KRegion -> sval_ok e = true -> Forall (setting_ok regs) (w_opt k e).
 Proof.
   intros Hk He. destruct e as [|c e']; [constructor|]. constructor; [|constructor]. unfold setting_ok. cbn [fst snd].
-  split; [exact He|]. split; [discriminate|]. destruct k; try exact I. contradiction.
+  split; [exact He|]. destruct k; try exact I. contradiction.
 Qed.
 Lemma w_sets_ok regs it : set_ok (eff_set it) = true ->
   match eff_region it with
-  | Some id => sval_ok id = true /\ id <> [] /\ exists rg, aget id regs = Some rg /\ rg_id rg = id
+  | Some id => sval_ok id = true /\ exists rg, aget id regs = Some rg /\ rg_id rg = id
   | None => True
   end -> Forall (setting_ok regs) (w_sets it).
 Proof.
   intros H Hr. unfold set_ok in H. rewrite !andb_true_iff in H. destruct H as ((((H1 & H2) & H3) & H4) & H5).
   unfold w_sets. repeat (apply Forall_app; split); try (apply w_opt_ok; [discriminate | assumption]).
-  destruct (eff_region it) as [id|]; [|constructor]. destruct Hr as (A & B & C). constructor; [|constructor].
-  unfold setting_ok. cbn [fst snd]. split; [exact A | split; [exact B | exact C]].
+  destruct (eff_region it) as [id|]; [|constructor]. destruct Hr as (A & C). constructor; [|constructor].
+  unfold setting_ok. cbn [fst snd]. split; [exact A | exact C].
 Qed.
 
 Lemma itoa_lineok n : lineok (itoa n) = true.
@@ -201,28 +198,28 @@ Qed.
 Lemma w_cues_gap l : forall k, Forall (fun p => cr_before (fst p) <> []) (w_cues_from (S k) l).
 Proof. induction l as [|it r IH]; intros k; [constructor|]. cbn [w_cues_from]. constructor; [cbn [fst w_crend cr_before]; discriminate | apply IH]. Qed.
 
-Lemma w_cues_ok d ro : regions_keyed d ro -> forall l, Forall (item_okd ro) l -> Forall (fun it => eff_region it <> Some []) l ->
+Lemma w_cues_ok d ro : regions_keyed d ro -> forall l, Forall (item_okd ro) l ->
   forall k, Forall (fun p => gcue_ok (read_regions d ro) (snd p) /\ crend_ok (fst p) (snd p)) (w_cues_from k l).
 Proof.
-  intros Hkeyed. induction l as [|it r IH]; intros Hitems Hrne k; [constructor|].
-  inversion Hitems as [|? ? (A1 & A2 & A3 & A4 & A5 & A6) Hitems']; subst. inversion Hrne as [|? ? Hr1 Hrne']; subst.
+  intros Hkeyed. induction l as [|it r IH]; intros Hitems k; [constructor|].
+  inversion Hitems as [|? ? (A1 & A2 & A3 & A4 & A5 & A6) Hitems']; subst.
   cbn [w_cues_from]. constructor; [|apply IH; assumption].
   cbn [fst snd]. split; [|apply w_crend_ok].
   unfold gcue_ok, w_gcue. cbn [gc_comments gc_id gc_st gc_en gc_sets gc_lines].
   split; [exact A1|]. split; [exact A2|]. split; [|split; [exact A5 | split; [apply itoa_lineok | exact A6]]].
   apply w_sets_ok; [exact A3|]. destruct (eff_region it) as [id|]; [|exact I]. destruct A4 as [A4 A4'].
-  split; [exact A4|]. split; [intros ->; apply Hr1; reflexivity|].
+  split; [exact A4|].
   destruct (aget_regs (region_list d ro) id) as (rg & E1 & E2).
   - rewrite (region_ids d ro Hkeyed). apply ssort_in. exact A4'.
   - exists (nregion rg). split; [exact E1 | exact E2].
 Qed.
 
-Theorem write_rendering_ok d so ro : repr_vdoc d so ro -> region_refs_nonempty d ->
+Theorem write_rendering_ok d so ro : repr_vdoc d so ro ->
   hrend_ok (w_hrend d so ro) (w_gdoc d so ro) /\ gdoc_ok (w_gdoc d so ro) /\
   Forall (fun p => gcue_ok (denote_regions (w_gdoc d so ro)) (snd p) /\ crend_ok (fst p) (snd p)) (w_cues d) /\
   Forall (fun p => cr_before (fst p) <> []) (tl (w_cues d)) /\ Forall blank (@nil str).
 Proof.
-  intros [Hne Hcount Hnd Hregs Hitems [Hsty1 Hsty2] Hts] Hrne.
+  intros [Hne Hcount Hnd Hregs Hitems [Hsty1 Hsty2] Hts].
   assert (Hkeyed : regions_keyed d ro) by (intros k Hk; destruct (Hregs k Hk) as (rg & A & B & _); exists rg; auto).
   split; [|split; [|split; [|split; [|constructor]]]].
   - unfold hrend_ok, w_hrend, w_gdoc. cbn [hr_trailing hr_blanks0 hr_style_blanks hr_region_blanks gd_style].
@@ -267,30 +264,16 @@ Qed.
 
 (* THE ROUND TRIP RE-DERIVED THROUGH THE RENDERING: the writer's bytes are the canonical rendering, the reader returns
    what that rendering denotes (by the reading half's theorem for all renderings), and that is the normalised document *)
-Theorem write_read_via_rendering d so ro : repr_vdoc d so ro -> region_refs_nonempty d ->
+Theorem write_read_via_rendering d so ro : repr_vdoc d so ro ->
   exists data, write_vtt d so ro = Ok data /\
     data = render_eol [10] (render_vtt (w_hrend d so ro) (w_gdoc d so ro) (w_cues d) []) /\
     read_vtt data = Ok (denote_vtt (w_gdoc d so ro) (w_cues d)) /\
     denote_vtt (w_gdoc d so ro) (w_cues d) = ndoc d so ro.
 Proof.
-  intros H Hrne. eexists. split; [apply write_is_rendering_repr; exact H|]. split; [reflexivity|].
+  intros H. eexists. split; [apply write_is_rendering_repr; exact H|]. split; [reflexivity|].
   split; [|apply write_denotes; exact H].
-  destruct (write_rendering_ok d so ro H Hrne) as (H1 & H2 & H3 & H4 & H5).
+  destruct (write_rendering_ok d so ro H) as (H1 & H2 & H3 & H4 & H5).
   apply read_rendered_vtt_bytes_gen; [left; reflexivity | assumption ..].
-Qed.
-
-(* the same three facts for EVERY representable document, also one that refers to a region with an empty identifier
-   (which the side conditions of the reading half exclude, see the example at the end): here the reading is taken
-   from the direct round-trip proof write_read_vtt instead of the reading half *)
-Theorem write_read_rendering d so ro : repr_vdoc d so ro ->
-  exists data, write_vtt d so ro = Ok data /\
-    data = render_eol [10] (render_vtt (w_hrend d so ro) (w_gdoc d so ro) (w_cues d) []) /\
-    read_vtt data = Ok (denote_vtt (w_gdoc d so ro) (w_cues d)) /\
-    denote_vtt (w_gdoc d so ro) (w_cues d) = ndoc d so ro.
-Proof.
-  intros H. destruct (write_read_vtt d so ro H) as (data & Hw & Hr). exists data. split; [exact Hw|].
-  rewrite (write_is_rendering_repr d so ro H) in Hw. injection Hw as Hw. split; [symmetry; exact Hw|].
-  rewrite (write_denotes d so ro H). split; [exact Hr | reflexivity].
 Qed.
 
 (* ================= a worked instance ================= *)
@@ -331,9 +314,8 @@ Example write_is_rendering_needs_nonneg :
   [b "WEBVTT"; []; b "1"; b "0-1:59:59.999 --> 00:00:01.000"; b "second"].
 Proof. split; vm_compute; reflexivity. Qed.
 
-(* the condition on region identifiers comes from the reading half only: a document whose cue refers to the region with
-   the empty identifier is representable, is written (the setting word is region: with nothing after the colon) and
-   read back, but the check of the reading half rejects the rendering because a setting value is empty *)
+(* a boundary case: a cue that refers to the region with the EMPTY identifier is representable; it is written with the
+   setting word region: (nothing after the colon) and its canonical rendering passes the check of the reading half *)
 Definition noid_doc : vdoc :=
   mkVdoc [mkVitem 0 0%Z 1000000000%Z [] (Some []) (Some vset0) None [ex_ln2]] [([], mkVregion [] None None)] [] None.
 Example noid_doc_repr : repr_vdoc noid_doc [] [[]].
@@ -347,12 +329,8 @@ Proof.
   - split; vm_compute; reflexivity.
   - exact I.
 Qed.
-Example write_rendering_ok_needs_region_id :
+Example write_rendering_empty_region_id :
   render_vtt (w_hrend noid_doc [] [[]]) (w_gdoc noid_doc [] [[]]) (w_cues noid_doc) [] =
   [b "WEBVTT"; []; b "Region: id="; []; b "1"; b "00:00:00.000 --> 00:00:01.000 region:"; b "second"] /\
-  rendering_okb (w_hrend noid_doc [] [[]]) (w_gdoc noid_doc [] [[]]) (w_cues noid_doc) [] = false /\
-  ~ region_refs_nonempty noid_doc.
-Proof.
-  split; [vm_compute; reflexivity|]. split; [vm_compute; reflexivity|].
-  intros H. inversion H as [|? ? H1 _]; subst. apply H1. reflexivity.
-Qed.
+  rendering_okb (w_hrend noid_doc [] [[]]) (w_gdoc noid_doc [] [[]]) (w_cues noid_doc) [] = true.
+Proof. split; vm_compute; reflexivity. Qed.
